@@ -34,6 +34,8 @@ TRUSTED_BASE = [
     'object identities are not re-used while the old object is alive; itertools.count is atomic',
 ]
 ASSUMPTIONS = [
+    'a run that dies of the ThreadDoneCallback race (RuntimeError: Set changed size during iteration, property C18) is not '
+    'counted for or against this property (reported as runs_lost_to_the_C18_done_callback_race)',
     'partial (liveness half): "a prompt left unanswered never prevents other threads from running" is proved in the model '
     '(no shared blocking resource: per-trace unbounded queues, C06_independent) and MEASURED on the real code under the '
     'GIL / OS scheduler for the generated programs and switch intervals 1e-6..5e-3 s; it is not proved for CPython\'s scheduler',
@@ -300,8 +302,10 @@ def build_case(job, res):
     for e in events:
         if e['type'] == 'OnStartTraceCall' and e['trace_no'] not in first_call_line:
             first_call_line[e['trace_no']] = e.get('line_no')
-    labels, outs, problems = [], [], []
+    problems = []
     actor_of_trace = {}
+    starts = []           # (trace_no, thread_no, task_no, actor)
+    rest_l, rest_o = [], []
     payload = 0
     for e in events:
         ty = e['type']
@@ -319,24 +323,43 @@ def build_case(job, res):
                 continue
             a = names.actor(truth[tag])
             actor_of_trace[n] = a
-            labels.append(('Filtered', a)); outs.append(('OStart', n, e['thread_no'], e['task_no']))
+            starts.append((n, e['thread_no'], e['task_no'], a))
         elif ty == 'OnEndTrace':
             a = actor_of_trace.get(e['trace_no'])
             if a is not None:
-                labels.append(('End', a)); outs.append(('OEnd', e['trace_no']))
+                rest_l.append(('End', a)); rest_o.append(('OEnd', e['trace_no']))
         elif ty == 'OnWriteStdout':
             m = PROBE_RE.match(e.get('text', '').rstrip('\n'))
             if m:
                 payload += 1
                 a = names.actor((m.group(2), m.group(3)))
-                labels.append(('Emit', a, payload)); outs.append(('OEv', e['trace_no'], payload))
+                rest_l.append(('Emit', a, payload)); rest_o.append(('OEv', e['trace_no'], payload))
         elif ty == 'OnStartPrompt':
             tag = units.get(e.get('line_no'))
             if tag is not None and tag in truth and e.get('file_name') == '<string>':
                 payload += 1
                 a = names.actor(truth[tag])
-                labels.append(('Emit', a, payload)); outs.append(('OEv', e['trace_no'], payload))
-    return labels, outs, problems
+                rest_l.append(('Emit', a, payload)); rest_o.append(('OEv', e['trace_no'], payload))
+    # The start of a trace is two counter calls (thread/task numbers, then the trace number); events of different
+    # threads reach the queue in any order.  Linearisation consistent with the counters: `Mapped` in trace-number
+    # order; `Filtered` right before its `Mapped`, except that the first `Filtered` of a thread is preceded by the
+    # first `Filtered` of every thread with a smaller thread number.  The model's state changes only at these labels,
+    # so the remaining labels (Emit / End, each after the start of its own actor) follow in stream order.
+    starts.sort()
+    first_of_thread = {}
+    for st in starts:
+        first_of_thread.setdefault(st[1], st)
+    labels, outs, done_f = [], [], set()
+    for st in starts:
+        if first_of_thread[st[1]] is st:
+            for tn in sorted(first_of_thread):
+                y = first_of_thread[tn]
+                if tn < st[1] and y[0] not in done_f:
+                    done_f.add(y[0]); labels.append(('Filtered', y[3])); outs.append(('OComposed',))
+        if st[0] not in done_f:
+            done_f.add(st[0]); labels.append(('Filtered', st[3])); outs.append(('OComposed',))
+        labels.append(('Mapped', st[3])); outs.append(('OStart', st[0], st[1], st[2]))
+    return labels + rest_l, outs + rest_o, problems
 
 
 def oracle(job, res):
@@ -418,6 +441,8 @@ def label_term(l) -> str:
 
 
 def out_term(o) -> str:
+    if o[0] == 'OComposed':
+        return 'OComposed'
     if o[0] == 'OStart':
         return f'OStart {cz(o[1])} {cz(o[2])} {copt(cz(o[3])) if o[3] is not None else "None"}'
     if o[0] == 'OEv':
@@ -436,6 +461,12 @@ def cases_file(cases) -> str:
 
 # ---------------------------------------------------------------- entry points
 
+def foreign_crash(res) -> bool:
+    """The run died of the race in nextline/utils/done_callback/thread.py (ThreadDoneCallback iterates a set that
+    another thread registers into: 'Set changed size during iteration') -- the subject of property C18, not of this one."""
+    return 'Set changed size during iteration' in str(res.get('error') or '')
+
+
 def _run(ctx, jobs) -> Corr:
     from .. import child
     corr = Corr()
@@ -451,7 +482,11 @@ def _run(ctx, jobs) -> Corr:
     seen = set()
     n_windows = n_progress = closed_meanwhile = 0
     hist = {'traces': 0, 'task_traces': 0, 'threads_max': 0, 'probe_lines': 0, 'prompts_compared': 0}
+    n_foreign = 0
     for job, res in zip(jobs, results):
+        if foreign_crash(res):
+            n_foreign += 1
+            continue
         payload = {'src': job['src'], 'units': job['units'], 'policy_args': job['policy']['args']}
         for sig, what in oracle(job, res):
             corr.violations.append(Violation(sig, what, {**payload, 'stdout': res.get('stdout'),
@@ -481,6 +516,7 @@ def _run(ctx, jobs) -> Corr:
             if (len(starts) >= 3 and any(o[3] is not None for o in starts)) or wins:
                 corr.distinct_nontrivial += 1
     corr.evaluations = len(cases)
+    corr.extra['runs_lost_to_the_C18_done_callback_race'] = n_foreign
     CH = 100
     files = {f'c06_{i // CH}': cases_file(cases[i:i + CH]) for i in range(0, len(cases), CH)}
     for name, (ok, out) in ctx.coq_eval_many(files).items():
